@@ -910,7 +910,7 @@ class Engine:
         app = fn(*zargs)
         if sf.ast is None:
             return app
-        if sf.qdef and sf.name not in self._qdefs:
+        if sf.qdef and sf.name not in self._qdefs and not getattr(self, "_suppress_qdef", False):
             # quantified definitional axiom (pattern: the application itself), needed when the function is
             # applied to bound variables
             self._qdefs.add(sf.name)
@@ -1754,7 +1754,7 @@ class Engine:
         if end is not None:
             for gs in lp.ghost_end:
                 self.exec_ghost(gs, end)
-            extra = self.lemma_instances(lp.lemmas, end, ictx)
+            extra = self.lemma_instances(lp.lemmas, end, dict(ictx, at_iter=it_env))
             for cl in lp.inv:
                 g = to_bool(self.ev(cl.ast, end, True, ictx))
                 self.emit("inv-pres", f"loop{ordn}:{cl.label}", g, end.guard, cl.props, extra=extra)
@@ -1783,7 +1783,14 @@ class Engine:
             if lm is None:
                 raise ContractError(f"unknown lemma {call.func.id}")
             args = [self.ev(a, st, True, ctx) for a in call.args]
-            out.append(self.lemma_formula(lm, args))
+            # an instance of a proved lemma is a plain fact: spec functions under its binders are matched, never unfolded,
+            # so it must not pull the quantified definitional axiom of such a function into every query of this function
+            saved = getattr(self, "_suppress_qdef", False)
+            self._suppress_qdef = True
+            try:
+                out.append(self.lemma_formula(lm, args))
+            finally:
+                self._suppress_qdef = saved
         return out
 
     def lemma_formula(self, lm: S.Lemma, args):
